@@ -385,6 +385,10 @@ def text_of(value):
     if value is None:
         # a blank operand joins as nothing
         return ''
+    if isinstance(value, string_types):
+        # the text itself: str() of a member of a (str, Enum) class is "Colour.RED", not "red"
+        return value if type(value) is str else str.__getitem__(value, slice(None))
+    value = plain_number(value)  # likewise for members of number classes
     if isinstance(value, float) and value.is_integer() and abs(value) <= 2**53:
         # a whole number joins as its digits however it was computed: (10/2)&" items" is "5 items"
         return str(int(value))
